@@ -132,8 +132,11 @@ theorem unwrap_state_independent (c : Ciphers) (kb kb' : KB) (s : PyStr) (hk : k
 
 /-! ## all histories -/
 
-/-- every operation leaves the KBPK alone -/
-theorem step_kbpk (c : Ciphers) (kb : KB) (op : Op) : (step c kb op).2.kbpk = kb.kbpk := by
+/-- state after a whole history of operations -/
+def run (c : Ciphers) (kb : KB) (ops : List Op) : KB := ops.foldl (fun s op => (step c s op).2) kb
+
+/-- every operation other than assigning `kb.kbpk` leaves the KBPK alone -/
+theorem step_kbpk (c : Ciphers) (kb : KB) (op : Op) (hop : ∀ k, op ≠ .setKbpk k) : (step c kb op).2.kbpk = kb.kbpk := by
   cases op with
   | unwrap s => simp only [step, KB.unwrap]; split <;> rfl
   | load s => simp [step]
@@ -150,34 +153,34 @@ theorem step_kbpk (c : Ciphers) (kb : KB) (op : Op) : (step c kb op).2.kbpk = kb
   | delBlock i => simp only [step]; split <;> rfl
   | str => simp [step]
   | dump n => simp [step]
+  | setKbpk k => exact absurd rfl (hop k)
 
-/-- state after a whole history of operations -/
-def run (c : Ciphers) (kb : KB) (ops : List Op) : KB := ops.foldl (fun s op => (step c s op).2) kb
-
-theorem run_kbpk (c : Ciphers) (kb : KB) (ops : List Op) : (run c kb ops).kbpk = kb.kbpk := by
-  induction ops generalizing kb with
-  | nil => rfl
-  | cons op r ih =>
-    simp only [run, List.foldl_cons] at ih ⊢
-    rw [ih, step_kbpk]
-
-/-- **History independence**: after *any* two sequences of operations (any length) on objects with the same KBPK,
-unwrapping the same string gives the same outcome and, when the header loads, the same resulting state; the same
-holds for `Header.load`. -/
-theorem history_independent (c : Ciphers) (kbpk : Bytes) (h0 h0' : Header) (ops ops' : List Op) (s : PyStr) :
-    let a := run c { kbpk := kbpk, header := h0 } ops
-    let b := run c { kbpk := kbpk, header := h0' } ops'
+/-- **History independence**: after *any* two sequences of operations (any length, including re-assignment of the
+KBPK attribute), if the two objects currently hold the same KBPK then unwrapping the same string gives the same outcome
+and, when the header loads, the same resulting state; the same holds for `Header.load` (whatever the KBPKs). -/
+theorem history_independent (c : Ciphers) (kb0 kb0' : KB) (ops ops' : List Op) (s : PyStr)
+    (hk : (run c kb0 ops).kbpk = (run c kb0' ops').kbpk) :
+    let a := run c kb0 ops
+    let b := run c kb0' ops'
     (step c a (.unwrap s)).1 = (step c b (.unwrap s)).1 ∧
     (step c a (.load s)).1 = (step c b (.load s)).1 ∧
     (∀ n, (a.header.load s).1 = .ok n →
       (step c a (.unwrap s)).2 = (step c b (.unwrap s)).2 ∧ (step c a (.load s)).2 = (step c b (.load s)).2) := by
   intro a b
-  have hk : a.kbpk = b.kbpk := by simp only [a, b, run_kbpk]
   obtain ⟨u1, u2⟩ := unwrap_state_independent c a b s hk
   obtain ⟨l1, l2⟩ := load_state_independent a.header b.header s
   refine ⟨by simp only [step, u1], by simp only [step, l1], fun n hn => ⟨by simp only [step]; exact u2 n hn, ?_⟩⟩
   simp only [step]
   rw [l2 n hn, hk]
+
+/-- without re-assignment the KBPK is the one the object was created with -/
+theorem run_kbpk (c : Ciphers) (kb : KB) (ops : List Op) (hops : ∀ op ∈ ops, ∀ k, op ≠ .setKbpk k) :
+    (run c kb ops).kbpk = kb.kbpk := by
+  induction ops generalizing kb with
+  | nil => rfl
+  | cons op r ih =>
+    simp only [run, List.foldl_cons] at ih ⊢
+    rw [ih _ (fun o ho => hops o (by simp [ho])), step_kbpk c kb op (hops op (by simp))]
 
 /-- the mixed state a failed load leaves behind is harmless: the next successful load overwrites all of it -/
 theorem load_overwrites_everything (σ : Header) (bad good : PyStr) (n : Nat)
